@@ -66,6 +66,11 @@ def strategy_impl(draw, tier):
     if conv == "both":
         # COMODO attributes that describe something else entirely (every dim a center of its own axis)
         case["comodo_decoy"] = True
+    if conv.endswith("+coords"):
+        # which axes the user's own `coords` name: the parsed ones, some of them, only an axis the metadata does not describe,
+        # or both kinds
+        case["user_coords"] = draw(st.sampled_from(["same", "subset", "disjoint", "overlap+new"]))
+        case["user_axis"] = draw(st.sampled_from(["W", "Z2", "depth", "k"]))
     case["op"] = draw(st.sampled_from(["diff", "interp", "cumsum"]))
     case["boundary"] = draw(st.sampled_from(M.RULES))
     return case
@@ -143,11 +148,22 @@ def check(case, ctx):
             elif p != "center":
                 classes.append(f"sgrid:{POS2PAD[p]}:{case['sgrid']['topo']}:{'space' if case['sgrid']['space'] else 'nospace'}")
     if conv.endswith("+coords"):
+        mode = case.get("user_coords", "same")
+        user = {k: dict(v) for k, v in exp.items()}
+        if mode == "subset":
+            user = dict(list(user.items())[:1])
+        if mode in ("disjoint", "overlap+new"):
+            # two dimensions the metadata says nothing about
+            ds = ds.assign_coords(wq_c=("wq_c", np.arange(3) + 0.5), wq_o=("wq_o", np.arange(4) * 1.0))
+            new = {case.get("user_axis", "W"): {"center": "wq_c", "outer": "wq_o"}}
+            user = new if mode == "disjoint" else dict(list(user.items())[:1], **new)
+        classes.append("user-coords:" + mode)
         try:
-            Grid(ds, coords={k: dict(v) for k, v in exp.items()}, periodic=False)
+            g = Grid(ds, coords=user, periodic=False)
         except Exception:  # noqa: BLE001
             return {"nontrivial": True, "classes": classes}
-        raise Violation("user-supplied coords together with parsed metadata were accepted instead of rejected", conv=conv)
+        raise Violation("user-supplied coords together with parsed metadata were accepted instead of rejected", conv=conv, user_coords=user,
+                        axes={n: dict(a.coords) for n, a in g.axes.items()})
 
     grid = must_return("Grid(ds) autoparse", Grid, ds, periodic=False, boundary=case["boundary"])
     got = {name: dict(ax.coords) for name, ax in grid.axes.items()}
